@@ -7,13 +7,14 @@
    ignores — and the C16 statement (BP128Proofs64.get_count_encode64) restated about it. *)
 Require Import VV.Base VV.BaseProofs VV.Tagged VV.TaggedProofs VV.TaggedSpecProofs VV.FORProofs.
 Require Import VV.BP128 VV.BP128Lemmas VV.BP128Proofs64.
-Require Import VV.CSem VV.CSemProofs VV.TaggedSrcGet VV.TaggedSrcPropsPut VV.RleSrcProofs VV.HdrSrcFOR.
+Require Import VV.CSem VV.CSemProofs VV.TaggedSrcGet VV.TaggedSrcPropsPut VV.RleSrcProofs.
 Require Import VVgen.Src_tagged VVgen.Src_hdr_bp128.
 From Coq Require Import Lia ZifyBool ZifyN ZifyNat.
 Local Open Scope Z_scope.
 Ltac Zify.zify_post_hook ::= Z.div_mod_to_equations.
 
-Lemma src_varintBP128GetCount_is_model : forall z srcBytes, bytes_ok z -> hdr_varint_in z ->
+Lemma src_varintBP128GetCount_is_model : forall z srcBytes, bytes_ok z ->
+  Z.of_N (tagged_getlen z) <= Z.of_nat (length z) ->
   src_varintBP128GetCount z srcBytes = COk (Z.of_N (get_count z)).
 Proof.
   intros z sb Hz H1. destruct (get64_complete z Hz H1) as (E1 & F1 & G1).
@@ -32,6 +33,6 @@ Proof.
   - rewrite get_count_encode64 by assumption. rewrite nat_N_Z. reflexivity.
   - rewrite encode64_blocks by exact Hne.
     repeat apply bytes_ok_app; [apply bytes_ok_tagged_put64|apply bytes_ok_blocks|exact Htl].
-  - unfold hdr_varint_in. rewrite encode64_blocks by exact Hne. rewrite <- app_assoc.
+  - rewrite encode64_blocks by exact Hne. rewrite <- app_assoc.
     rewrite tagged_getlen_put by exact Hn'. rewrite app_length, tagged_put_len_nat. lia.
 Qed.
